@@ -23,3 +23,4 @@ PROP = {
     "assumptions": STD_ASSUME + ["axes are non-zero; the azimuth clause is judged where sin(theta) > 1e-3"],
 }
 PROP["level_text"] += ' The axis-free overload and the 2D matrix are compared with their closed forms within 4-8 eps (not bit for bit), and call histories in which the same angles and bit-identical axes recur across 2D, 3D and spherical calls are judged against a long double Rodrigues reference.'
+PROP["level_text"] += ' Axes live in Vector objects that are changed in place (+=, -=, []) between calls; axis lengths next to 1, transverse components down to subnormal numbers, radii from 1e-300 to 1e300.'
